@@ -11,15 +11,21 @@ Definition backend_ops : list string :=
   ["exists"; "is_dir"; "is_file"; "mkdir"; "rmdir"; "unlink"; "list"; "stat"; "open"; "seek"; "write"; "read";
    "close"; "rename"].
 
-(* the dispatcher answers a PathIOError of any task with 451 and goes on *)
+(* the dispatcher answers a PathIOError of any task with 451 and goes on (logging calls in the except
+   block do not matter) *)
+Definition not_log (a : string) : bool := negb (String.eqb a "log").
 Definition react_ok (r : option (list string)) : bool :=
   match r with
-  | Some [a; b] => String.eqb a "response:451" && String.eqb b "continue"
-  | _ => false
+  | Some acts =>
+      match filter not_log acts with
+      | [a; b] => String.eqb a "response:451" && String.eqb b "continue"
+      | _ => false
+      end
+  | None => false
   end.
 
 (* the shape of a worker's `async with` *)
-Definition file_item (it : string) : bool := String.eqb it "file_in" || String.eqb it "file_out".
+Definition file_item (it : string) : bool := String.eqb it "file" || String.eqb it "file_in" || String.eqb it "file_out".
 
 Inductive shape := FileFirst | StreamFirst | StreamOnly | Unknown.
 Definition shape_of (c : list string) : shape :=
